@@ -29,7 +29,7 @@ CLAIMED = {
         "schemas with closed alternatives (x << {A, B}) hold in full (C03r_resolved_elim_closed_holds_partial), remaining alternatives always derive from the schema's (across minimize's stale write-back). Partial: wildcard-free schemas (nwild = 0; "
         "C03c_match3_wildcards_unsound shows why marking needs it), resolution depth < 64 (C03r_deep_constraint_unchecked: beyond its match fuel 4*vars+64 the MODEL accepts F^70(x) <= F^70(A) on Unit where the Python code - replayed - raises "
         "ConstraintViolation: model and code are claimed, and compared by a depth family, only below that depth), and fulfilled elimination records left with >= 2 non-closed alternatives by a re-entrant fulfill (neither proved nor refuted: "
-        "0 violations in 3.9 million such records found by search; Props/C03ResolvedElim.lean, C03e_*, 9: reduction to one clause, stability lemmas, and a verified monitor elimHoldsB - exact on resolved elimination records - that the tfv-inv executable evaluates on the model's final store of every compared run, a rejection being a C03 failure; Props/C03Wild.lean, C03w_*, 19: match3 on variable pairs characterised exactly, the variable/variable case of fulfil sound without any wildcard hypothesis, a decidable certificate subsStrictB replacing NoWild in the partial theorems, 588 wildcard runs certified in the kernel - that every reachable store passes the certificate is proved end to end for runs with at most one wildcard in schema and arguments together (Props/C03WildReach.lean, C03x_*, 22) and reduced to one explicit hypothesis otherwise); that rest is decided by correspondence (re-check order fixed by the hook) and the oracle (corner instantiations of the implementation's own final signature); unify(subtype=False) has proved counterexamples "
+        "0 violations in 3.9 million such records found by search; Props/C03ResolvedElim.lean, C03e_*, 9: reduction to one clause, stability lemmas, and a verified monitor elimHoldsB - exact on resolved elimination records - that the tfv-inv executable evaluates on the model's final store of every compared run, a rejection being a C03 failure; Props/C03Wild.lean, C03w_*, 19: match3 on variable pairs characterised exactly, the variable/variable case of fulfil sound without any wildcard hypothesis, a decidable certificate subsStrictB replacing NoWild in the partial theorems, 588 wildcard runs certified in the kernel - that every reachable store passes the certificate is proved end to end for runs with at most one wildcard in schema and arguments together (Props/C03WildReach.lean, C03x_*, 22) and reduced to one explicit hypothesis otherwise; Props/C03WildMany.lean, C03y_*, 12: for any number of wildcards the marking case of fulfil is strict in every branch of unify except the right-skeleton one, which stays an explicit hypothesis); that rest is decided by correspondence (re-check order fixed by the hook) and the oracle (corner instantiations of the implementation's own final signature); unify(subtype=False) has proved counterexamples "
         "(C03_unify_plain_unsound_*), it is not reachable from Type.apply.",
         technique="Lean 4 proof (simultaneous induction on fuel over the mutual unifier, store invariants, valuation semantics) + model/implementation correspondence check",
         ref="6/C03"),
